@@ -181,6 +181,10 @@ def render(doc: Doc) -> str:
             for e in w[1]:
                 lines += render_entry(e, 2)
             lines.append("in")
+            # optional own-line trivia between this `in` and what follows (the next `let`, or the
+            # body): ("let", entries, comment, after_in) with after_in = "" (blank line) or a comment
+            if len(w) > 3 and w[3] is not None:
+                lines.append(f"# {w[3]}" if w[3] else "")
         elif kind == "with":
             lines.append(pending_head + f"with {w[1]};")
             pending_head = ""
@@ -438,7 +442,12 @@ class DocGen:
         if nl and not (d.wrappers and d.wrappers[-1][0] == "call"):
             for _ in range(nl):
                 note = self.comment() if (self.comments and r.random() < 0.08 * self.comment_rate) else None
-                d.wrappers.append(("let", self.let_entries(r.choice([1, 2, 3])), note))
+                after_in = None
+                if self.comments and r.random() < 0.07 * self.comment_rate:
+                    after_in = self.comment()
+                elif r.random() < 0.04:
+                    after_in = ""
+                d.wrappers.append(("let", self.let_entries(r.choice([1, 2, 3])), note, after_in))
         d.target = self.set_node(0, r.choice(range(1, self.max_entries + 1)))
         if d.wrappers and d.wrappers[-1][0] == "call" and r.random() < 0.2:
             d.target.rec = True
